@@ -310,6 +310,21 @@ func (e *Engine) runPath(fn *ssa.Function, prefix []int, sol *Solver, cfg RunCon
 				}
 			}
 		}
+		p.killThreads()
+		if w := p.world; w != nil && len(w.threads) > 1 && (pr.outcome == "ok" || pr.outcome == "done") {
+			// race/deadlock obligations of this schedule are discharged when nothing was reported
+			for _, clause := range []string{w.raceClause, w.deadlockClause} {
+				bad := false
+				for _, v := range p.violations {
+					if v.Clause == clause {
+						bad = true
+					}
+				}
+				if !bad {
+					p.assertsOK[clause]++
+				}
+			}
+		}
 		sol.EndPath()
 		pr.forks = p.forks
 		pr.violations = p.violations
